@@ -7,6 +7,8 @@ Every (run, step, position) point of each generated pipeline is injected, one at
 """
 from __future__ import annotations
 
+import json
+import os
 import threading
 
 import numpy as np
@@ -84,6 +86,10 @@ def faulty(detector, **kw):
         n_eval = EVALS[0]
         LOG.append({"model": name, "step": step, "k": k, "eval": n_eval, "thread": threading.get_ident()})
         f = dict(FAULT)
+    if not f and os.environ.get("VF_C09_FAULT"):
+        # worker processes of the dask process scheduler import this module afresh: the plan travels
+        # through the environment they inherit
+        f = json.loads(os.environ["VF_C09_FAULT"])
     hit = False
     if f:
         if "eval" in f:
@@ -174,6 +180,7 @@ def reset(fault):
         FAULT.clear()
         FAULT.update(fault)
         EVALS[0] = 0
+    os.environ["VF_C09_FAULT"] = json.dumps(fault)
 
 
 def pipeline_shard(rec, spec):
